@@ -109,6 +109,32 @@ def install(owner, name, make_wrapper):
     return n
 
 
+# numpy floating-point error state for the monitored library call itself (None =
+# leave alone).  Set by a property module for interpreter-mode passes
+# (NUMBA_DISABLE_JIT=1), where a division by zero inside a kernel silently gives
+# NaN while the compiled kernel raises ZeroDivisionError: with
+# {"divide": "raise", "invalid": "raise"} the interpreted pass fails as loudly as
+# the compiled one instead of reporting values the compiled code never returns.
+CALL_ERRSTATE = None
+_PLAIN = {"divide": "warn", "invalid": "warn", "over": "warn", "under": "ignore"}
+
+
+def _call(fn, a, k):
+    if CALL_ERRSTATE is None:
+        return fn(*a, **k)
+    import numpy as np
+    with np.errstate(**CALL_ERRSTATE):
+        return fn(*a, **k)
+
+
+def _oracle(fn, *a, **k):
+    if CALL_ERRSTATE is None:
+        return fn(*a, **k)
+    import numpy as np
+    with np.errstate(**_PLAIN):
+        return fn(*a, **k)
+
+
 def monitored(rec, entry, pre, post, fam="_", on_reject=None):
     """Build a make_wrapper for ``install``.
 
@@ -128,7 +154,7 @@ def monitored(rec, entry, pre, post, fam="_", on_reject=None):
             snap = None
             rec.busy = True
             try:
-                snap = pre(*a, **k)
+                snap = _oracle(pre, *a, **k)
             except Exception as e:  # noqa
                 rec.monitor_error(entry + ":pre", e)
                 snap = None
@@ -136,14 +162,14 @@ def monitored(rec, entry, pre, post, fam="_", on_reject=None):
                 rec.busy = False
             rec.push(fam)
             try:
-                out = fn(*a, **k)
+                out = _call(fn, a, k)
             except BaseException as e:
                 rec.pop(fam)
                 rec.count(entry, "_call", "rejected")
                 if on_reject is not None and snap is not None:
                     rec.busy = True
                     try:
-                        on_reject(snap, e, *a, **k)
+                        _oracle(on_reject, snap, e, *a, **k)
                     except Exception as e2:  # noqa
                         rec.monitor_error(entry + ":reject", e2)
                     finally:
@@ -155,7 +181,7 @@ def monitored(rec, entry, pre, post, fam="_", on_reject=None):
                 return out
             rec.busy = True
             try:
-                post(snap, out, *a, **k)
+                _oracle(post, snap, out, *a, **k)
             except Exception as e:  # noqa
                 rec.monitor_error(entry + ":post", e)
             finally:
